@@ -19,6 +19,7 @@ PATS = {
     "Super(Filter(_))": "KFilter",
     "Super(Compute(_))": "KCompute",
     "Super(Take(_))": "KTake",
+    "Super(Take(take))": "KTake",
     "Super(Sort(_))": "KSort",
     "Super(Select(_))": "KSelect",
     "Super(Loop(_))": "KLoop",
@@ -29,7 +30,7 @@ PATS = {
     "SqlTransform::Except { .. }": "KExcept",
     "SqlTransform::Intersect { .. }": "KIntersect",
 }
-ALL_KINDS = ["KFrom", "KJoin", "KFilter", "KAggregate", "KCompute", "KComputeAgg", "KSort", "KTake", "KSelect", "KLoop", "KDistinct", "KDistinctOn", "KUnion", "KExcept", "KIntersect"]
+ALL_KINDS = ["KFrom", "KJoin", "KFilter", "KAggregate", "KCompute", "KComputeAgg", "KSort", "KTake", "KTakeSorted", "KSelect", "KLoop", "KDistinct", "KDistinctOn", "KUnion", "KExcept", "KIntersect"]
 
 
 def tr_expr(t):
@@ -63,6 +64,10 @@ def tr_expr(t):
         if not rest.startswith("else"):
             raise ExtractError("if without else in is_split_required")
         return "(if mem N%s f then %s else %s)" % (m.group(1), tr_expr(first), tr_expr(rest[4:].strip()))
+    m = re.fullmatch(r"(contains_any\(.*?\)) \|\| \( ?!take\.sort\.is_empty\(\) && (contains_any\(.*?\)) ?\)", t)
+    if m:
+        # only in the Take arm: the second disjunct applies to takes that carry a sort (kind KTakeSorted)
+        return ("TAKE", tr_expr(m.group(1)), tr_expr(m.group(2)))
     if t == "!following.is_empty()":
         return "negb (is_empty f)"
     if t in ("true", "false"):
@@ -199,6 +204,8 @@ def extract():
         for p in pats:
             if p == "_":
                 default = tr_expr(b)
+                if isinstance(default, tuple):
+                    raise ExtractError("`take.sort` is consulted in the default arm")
                 continue
             if p not in PATS:
                 raise ExtractError("is_split_required: unknown pattern %r" % p)
@@ -206,7 +213,17 @@ def extract():
             k = PATS[p]
             if k in cases:
                 raise ExtractError("duplicate arm for %s" % k)
-            cases[k] = ex
+            if isinstance(ex, tuple):
+                if k != "KTake" or p != "Super(Take(take))":
+                    raise ExtractError("`take.sort` is consulted outside the Take arm")
+                cases["KTake"] = ex[1]
+                cases["KTakeSorted"] = "(%s || %s)" % (ex[1], ex[2])
+            else:
+                if "take" in re.sub(r'"[A-Za-z]+"', "", b).replace("Take", ""):
+                    raise ExtractError("the Take arm consults the take in an unsupported way")
+                cases[k] = ex
+                if k == "KTake":
+                    cases["KTakeSorted"] = ex
     if default is None:
         raise ExtractError("is_split_required: no default arm")
     # contains_any helper must still be the plain membership loop
